@@ -605,5 +605,6 @@ BY_NAME = {f.name: f for f in FAMILIES}
 NOT_DRIVEN = {
     "MultiObjectiveGenomicSubsetMatingProblem": "declared 'STILL UNDER CONSTRUCTION' by the library: latentfn raises unconditionally",
     "RealLookAheadGeneralizedWeightedGenomicSelectionProblem": "decision vector is a schedule of exponents, not a contribution encoding; "
-                                                               "criterion is a multi-generation simulation (outside the property's list)",
+                                                               "criterion is a multi-generation simulation (outside the property's list); its latentfn still calls the "
+                                                               "old mate(pgmat, sel, ncross, nprogeny) API with a 1-D selection and raises ValueError with every current MatingProtocol",
 }
